@@ -14,7 +14,7 @@ T2 == ndJsonDeserialize(IOEnv.TRACE2)
 VARIABLES l, viol
 vars == <<l, viol>>
 
-Fields == {"op", "api", "args", "res", "events", "obs", "panel", "qinfo", "pos", "sweep", "dump", "a", "b"}
+Fields == {"op", "api", "args", "res", "events", "obs", "panel", "qinfo", "pos", "sweep", "dump", "a", "b", "shape"}
 
 Diff(x, y) == { f \in Fields : (f \in DOMAIN x) # (f \in DOMAIN y) \/ (f \in DOMAIN x /\ x[f] # y[f]) }
 
